@@ -131,6 +131,7 @@ def do_run(prop, mod, tier, seed, t0, no_shrink):
     if acc.harness_errors:
         for h in acc.harness_errors[:3]:
             print(h, file=sys.stderr)
+            print("HARNESS-ERROR-DETAIL property=%s %s" % (prop, " | ".join(str(h).strip().splitlines()[-4:])[:600]))
         print("HARNESS-ERROR property=%s %d worker error(s)" % (prop, len(acc.harness_errors)))
         return 2
 
